@@ -276,6 +276,18 @@ def sym_gate(cls, qs, params):
     g = getattr(gates, cls)
     if cls == "U3":
         return g(qs[0], theta=params[0], phi=params[1], lam=params[2])
+    if cls == "U2":
+        return g(qs[0], phi=params[0], lam=params[1])
+    if cls == "U1q":
+        return g(qs[0], theta=params[0], phi=params[1])
+    if cls == "CU3":
+        return g(qs[0], qs[1], theta=params[0], phi=params[1], lam=params[2])
+    if cls == "CU2":
+        return g(qs[0], qs[1], phi=params[0], lam=params[1])
+    if cls == "fSim":
+        return g(qs[0], qs[1], theta=params[0], phi=params[1])
+    if cls == "GeneralizedfSim":
+        return g(qs[0], qs[1], unitary=np.array([[0.6, 0.8], [-0.8, 0.6]], dtype=complex), phi=params[0])
     if cls == "CRX":
         return g(qs[0], qs[1], theta=params[0])
     return g(qs[0], theta=params[0])
@@ -295,7 +307,7 @@ def plan_status2(plan):
     return out
 
 
-def run_repeated_sym(n, dm, plan, psi, nshots, choosers):
+def run_repeated_sym(n, dm, plan, psi, nshots, choosers, fuse=False, scale=None):
     """plan items: ("G", matrix, qubits) | ("M", targets, collapse) | ("P", cls, qubits, uses, exprs):
     a gate of class cls whose parameter i is pi * exprs[i](symbols uses).  Executes the circuit once
     per chooser (same circuit object); reports, per execution, rows | per-M samples | frequencies."""
@@ -308,10 +320,13 @@ def run_repeated_sym(n, dm, plan, psi, nshots, choosers):
             handles.append(c.add(gates.M(*it[1], collapse=True) if it[2] else gates.M(*it[1])))
         else:
             syms = [handles[m].symbols[j] for m, j in it[3]]
-            c.add(sym_gate(it[1], it[2], [np.pi * sym_expr(e, syms) for e in it[4]]))
+            c.add(sym_gate(it[1], it[2], [np.pi * (scale or 1) * sym_expr(e, syms) for e in it[4]]))
     status = plan_status2(plan)
     mts = [it[1] for it in plan if it[0] == "M"]
     fq = [q for ts, st in zip(mts, status) if not st for q in ts]
+    if fuse:
+        # the fused circuit keeps the measurement gates: it must be simulated exactly like the original
+        c = c.fuse(max_qubits=2)
     psi = np.asarray(psi, dtype=complex)
     init = np.outer(psi, psi.conj()) / np.vdot(psi, psi).real if dm else psi / np.linalg.norm(psi)
 
@@ -340,7 +355,7 @@ def run_repeated_sym(n, dm, plan, psi, nshots, choosers):
     return reports, backends
 
 
-def spec_sym_shot(n, dm, plan, status, init, draws):
+def spec_sym_shot(n, dm, plan, status, init, draws, scale=None):
     """numpy SPEC of ONE shot given its draws (one per collapsing M over the sorted targets, then
     the terminal one): the recorded rows and the state; a P gate is built from the bits THIS shot
     recorded.  Returns (per-M recorded row or None, final state)."""
@@ -364,10 +379,63 @@ def spec_sym_shot(n, dm, plan, status, init, draws):
             U = np.diag([1.0 if all(((x >> (n - 1 - q)) & 1) == b_sorted[q] for q in srt) else 0.0 for x in range(d)])
         else:
             vals = [recs[m][j] for m, j in it[3]]
-            g = sym_gate(it[1], it[2], [np.pi * eval_expr(e, vals) for e in it[4]])
+            g = sym_gate(it[1], it[2], [np.pi * (scale or 1) * eval_expr(e, vals) for e in it[4]])
             U = _full(n, np.asarray(g.matrix(NumpyBackend())), list(it[2]))
         st = U @ st @ U.conj().T if dm else U @ st
     return recs, st
+
+
+def check_sym_execution(n, dm, plan, psi, nshots, chooser, fuse=False, scale=None):
+    """PROPERTY (collapse followed by classical use): in every shot the probabilities handed to the
+    sampler at every draw are the Born marginals of the state obtained by projecting on THIS shot's
+    recorded outcomes and applying the gates those outcomes prescribe; the collapse handles hold one
+    row per shot.  Independent numpy SPEC, arbitrary angles."""
+    reports, bes = run_repeated_sym(n, dm, plan, psi, nshots, [chooser], fuse=fuse, scale=scale)
+    be, rep = bes[0], reports[0]
+    if rep.startswith("malformed"):
+        return rep
+    status = plan_status2(plan)
+    psi = np.asarray(psi, dtype=complex)
+    init = np.outer(psi, psi.conj()) / np.vdot(psi, psi).real if dm else psi / np.linalg.norm(psi)
+    need = sum(status) + (0 if all(status) else 1)
+    if len(be.calls) != nshots * need:
+        return "%d sampler calls for %d shots of a circuit that draws %d times per shot (collapsing measurements + terminal sample)" % (len(be.calls), nshots, need)
+    flat = [x for c_ in be.calls for x in c_]
+    caches = rep.split("|")[1].split()
+    mlist = [it for it in plan if it[0] == "M"]
+    for mi, (it, st) in enumerate(zip(mlist, status)):
+        if st and len(caches[mi].split(",")) != nshots:
+            return "collapsing M%r holds %d recorded rows after %d shots" % (tuple(it[1]), len(caches[mi].split(",")), nshots)
+    for s in range(nshots):
+        draws = flat[s * need:(s + 1) * need]
+        recs, st = spec_sym_shot(n, dm, plan, status, init, draws, scale=scale)
+        for mi, r in enumerate(recs):
+            if r is not None and caches[mi].split(",")[s] != "".join(map(str, r)):
+                return "shot %d: M #%d recorded %s, its draw gives %r" % (s, mi, caches[mi].split(",")[s], r)
+        # every collapse draw of this shot: marginal of the state before that measurement
+        di = 0
+        for upto, it in enumerate(plan):
+            if it[0] == "M" and status[sum(1 for x in plan[:upto] if x[0] == "M")]:
+                pre_status = status
+                _, stp = spec_sym_shot(n, dm, plan[:upto], plan_status_prefix(plan, upto, status), init, draws[:di], scale=scale)
+                p = born_np(stp, n, sorted(it[1]))
+                asked = np.asarray(be.asked[s * need + di], dtype=float)
+                if p.shape != asked.shape or p.sum() <= 0 or not np.allclose(p / p.sum(), asked / asked.sum(), atol=1e-8):
+                    return "shot %d, collapsing M%r: the sampler was given %r; this shot's outcomes so far prescribe %r" % (s, tuple(it[1]), (asked / asked.sum()).round(6).tolist(), (p / max(p.sum(), 1e-300)).round(6).tolist())
+                di += 1
+        if not all(status):
+            fq = [q for it, stt in zip(mlist, status) if not stt for q in it[1]]
+            p = born_np(st, n, fq)
+            asked = np.asarray(be.asked[s * need + need - 1], dtype=float)
+            if p.shape != asked.shape or not np.allclose(p / p.sum(), asked / asked.sum(), atol=1e-8):
+                return "shot %d, terminal measurement of %r: the sampler was given %r; this shot's recorded outcomes prescribe %r" % (s, tuple(fq), (asked / asked.sum()).round(6).tolist(), (p / p.sum()).round(6).tolist())
+    return None
+
+
+def plan_status_prefix(plan, upto, status):
+    """status list restricted to the measurements of plan[:upto] (they are all collapsing there or skipped)."""
+    k = sum(1 for x in plan[:upto] if x[0] == "M")
+    return list(status[:k])
 
 
 def check_on_qubits(targets, f0, f1, new):
@@ -1234,6 +1302,100 @@ def symbols_suite(ctx):
     ctx.ob("C03_corr_symbols", bad == 0, "correspondence", f"{bad} disagreements" if bad else "")
 
 
+def full_poly(rng, nuses, avoid=()):
+    """integer polynomial that contains every symbol (so all parameters of a gate depend on the same symbols), different from those in `avoid`."""
+    while True:
+        out = [((), rng.randint(-1, 2))] + [((i,), rng.choice([-2, -1, 1, 2, 3])) for i in range(nuses)]
+        if nuses > 1 and rng.random() < 0.5:
+            out.append(((0, 1), rng.choice([-1, 1, 2])))
+        if out not in avoid:
+            return out
+
+
+MULTI = {"U3": (1, 3), "U2": (1, 2), "U1q": (1, 2), "CU3": (2, 3), "CU2": (2, 2), "fSim": (2, 2)}
+
+
+def classical_use_suite(ctx):
+    """property-level (numpy SPEC, arbitrary angles): (a) gates with two or more parameters that are
+    DIFFERENT expressions of the same measurement symbols, followed by a dense gate so that every
+    parameter is observable in the terminal distribution; (b) the same circuits and plain
+    collapse circuits after Circuit.fuse(): still simulated shot by shot."""
+    base = _base()
+    N = ns()
+    rng = ctx.rng
+    bad = {"C03_search_symbols_multiparam": 0, "C03_search_fused_collapse": 0}
+    had = [[1, 1], [1, -1]]
+    for it_ in range(90 if ctx.thorough else 36):
+        n = rng.randint(2, 3)
+        dm = rng.random() < 0.35
+        fuse = it_ % 3 == 2
+        with_p = not fuse or rng.random() < 0.3
+        plan = []
+        if rng.random() < 0.6:
+            g, tok, (m, qs) = base.int_gate(rng, n)
+            plan.append(("G", m.tolist(), list(qs)))
+        nm = rng.randint(1, 2)
+        msizes = []
+        for _ in range(nm):
+            ts = rng.sample(range(n), rng.randint(1, 2))
+            plan.append(("M", ts, True))
+            msizes.append(len(ts))
+            if rng.random() < 0.5:
+                plan.append(("G", had, [rng.randrange(n)]))
+        scale = rng.choice([0.5, 1 / 3, 0.25, 0.2])
+        if with_p:
+            avail = [(mi, j) for mi, sz in enumerate(msizes) for j in range(sz)]
+            for _ in range(rng.randint(1, 2)):
+                cls = rng.choice(sorted(MULTI))
+                nq, npar = MULTI[cls]
+                uses = rng.sample(avail, min(len(avail), rng.randint(1, 2)))
+                exprs = []
+                for _ in range(npar):
+                    exprs.append(full_poly(rng, len(uses), avoid=exprs))
+                qs = rng.sample(range(n), nq)
+                plan.append(("P", cls, qs, uses, exprs))
+                for q in qs:   # make the phases observable
+                    plan.append(("G", had, [q]))
+        else:
+            g, tok, (m, qs) = base.int_gate(rng, n)
+            plan.append(("G", m.tolist(), list(qs)))
+        sub = rng.sample(range(n), rng.randint(1, n))
+        plan.append(("M", sub, False))
+        psi = base.gi_state(rng, n, zeros=0.0, lo=1, hi=3)
+        nshots = rng.randint(2, 5)
+        log = []
+        sup = base.support_chooser(rng)
+
+        def chooser(p_, n_, log=log, sup=sup):
+            o_ = sup(p_, n_)
+            log.append(o_)
+            return o_
+
+        descr = [("G%s" % (tuple(x[2]),) if x[0] == "G" else "M%s%s" % (tuple(x[1]), "c" if x[2] else "") if x[0] == "M" else "%s%s(%g*pi*polys(%s))" % (x[1], tuple(x[2]), scale, ",".join("m%d[%d]" % u for u in x[3]))) for x in plan]
+        ob = "C03_search_fused_collapse" if fuse else "C03_search_symbols_multiparam"
+        ctx.case(("classical_use", n, dm, fuse, tuple(descr), nshots))
+        ctx.stat("classical_use_" + ("fused" if fuse else "plain") + ("_P" if with_p else ""))
+        try:
+            why = N["check_sym_execution"](n, dm, plan, psi, nshots, chooser, fuse=fuse, scale=scale)
+        except Exception as e:  # noqa
+            why = f"{type(e).__name__}: {e}"
+        if why:
+            if fuse and with_p and FUSED_SYMBOLIC_PENDING:
+                ctx.stat("pending_fused_symbolic_gate")
+                continue
+            bad[ob] += 1
+            py = (header_src() + "# circuit (qibo order): " + "; ".join(descr) + (" ; then circuit.fuse(max_qubits=2)" if fuse else "") + f"\nplan = {plan!r}\n"
+                  f"why = check_sym_execution({n}, {dm}, plan, np.array({np.asarray(psi).tolist()}), {nshots}, Tape({log!r}), fuse={fuse}, scale={scale!r})\nassert why is None, why\n")
+            key = ("fused:collapse:" if fuse else "symbols:multiparam:") + ("dm" if dm else "sv")
+            ctx.fail(key, f"circuit {descr}{' fused' if fuse else ''} (n={n}, dm={dm}, nshots={nshots}): {why}", py, observed=why, broken=[ob])
+    for ob, b in bad.items():
+        ctx.ob(ob, b == 0, "search", f"{b} failing inputs" if b else "")
+
+
+# a FusedGate hides symbolic parameters from the shot loop: decided by the lead, counted only
+FUSED_SYMBOLIC_PENDING = True
+
+
 def _status_iter(plan, status):
     mi = 0
     for it in plan:
@@ -1348,6 +1510,7 @@ def run_suites(ctx):
     bfrep_suite(ctx)
     freqonly_suite(ctx)
     symbols_suite(ctx)
+    classical_use_suite(ctx)
     on_qubits_search(ctx)
     noisy_sampler_search(ctx)
     ctx.notes.append(
